@@ -144,7 +144,7 @@ def run(ctx):
 def check_mle(ctx):
     """potentials[cl] = marginals[cl].log() - marginals[cl].project(new).log()
        with new = (all attributes of previously visited cliques) & cl, accumulator updated after use."""
-    fi = ctx.repo.func(GM, 'GraphicalModel.mle')
+    fi = ctx.repo.nfunc(GM, 'GraphicalModel.mle')
     marg = fi.params[1]
     loops = [s for s in fi.body if isinstance(s, ast.For)]
     if len(loops) != 1 or not isinstance(loops[0].target, ast.Name):
